@@ -108,7 +108,9 @@ int main(int argc, char **argv) {
         char key[200];
         snprintf(key, sizeof key, "prefix=%zu state=%llx%s op=%d,%d,%d,%d,%d", pi, (unsigned long long)(st & 0xffffffffull) | ((st >> 40) << 36), ((st >> 32) & 1) ? "(inline)" : "(large)", o.code, o.a, o.b, o.c, o.d);
         // enum_begin resets the per-case context; the interpreter's run() does the same again: we account the case ourselves
-        if (!est().replay_key.empty() && est().replay_key != key) continue;
+        // replay of one case: the search itself has to run (the key names a state of the search), only the outcome of the
+        // named case is reported
+        const bool replaying = !est().replay_key.empty();
         std::vector<Op> t = base;
         t.push_back(o);
         est().current = key;
@@ -120,8 +122,26 @@ int main(int argc, char **argv) {
           a->running = 2;
         }
         bool failed_now = I.run(&t[0], t.size());
-        ++est().evaluations;
         ++transitions;
+        if (replaying) {
+          if (est().replay_key != key) {
+            if (I.final_state != ~0ull && !shortest.count(I.final_state)) {
+              shortest[I.final_state] = t;
+              todo.push(I.final_state);
+            }
+            continue;
+          }
+          ++est().evaluations;
+          est().stop = true;  // found the case: report it and end the search
+          if (failed_now) {
+            est().fail_key = key;
+            est().fail_msg = ctx().msg;
+          } else {
+            est().fail_key.clear();
+          }
+          break;
+        }
+        ++est().evaluations;
         if (failed_now) {
           est().stop = true;
           est().fail_key = key;
